@@ -34,14 +34,27 @@ RULE = ('melt/recast: all rectangular tables, w in {2,3} x every permutation of 
         'include_original, missing/fill/maxsplit (unpackdict: <= 3 rows whose dict key sets differ, keys given or sampled '
         'with samplesize in {0,1,2,1000}: fields = sorted union of the keys of the sampled rows only), the OTHER two cells of each row being position tags or (tables '
         'of <= 1 (thorough 2) rows: every combination of) a value equal to the expanded cell / equal to its first '
-        'part. fromdicts(dicts(t)), fromcolumns(columns(t)): every shape w<=3, n<=3. '
+        'part. fromdicts(dicts(t)), fromcolumns(columns(t)): every shape w<=3, n<=3 x every KIND of input (list, '
+        'tuple, petl dicts() container, generator, iter(list), map object; columns as list/tuple/iterator of '
+        'lists/tuples/iterators) x header given / discovered x sample in {default,1,2,1000}; two passes for '
+        're-iterable inputs and generators, one pass for one-shot iterators. FIELD-NAME axis: names drawn '
+        'injectively from {a, b, 2019, "2019", 2020, 1.5, None, True} (int, float, None, bool, a text equal to '
+        'str(int)) for melt and recast(melt(t)) (w in {2,3}, every ordered key subset, fields selected by index '
+        'and by str(name) where unambiguous), transpose/transpose^2 and flatten (w<=3), the two untouched fields '
+        'of unpack/unpackdict/capture/split/splitdown (<= 1 row), recast with int / float+bool variable values, '
+        'and melt(pivot(t)) / recast(melt(pivot(t))) (pivot header = f2 values); header and cells compared '
+        'type-faithfully. '
         'states = distinct (table, call form) points. Non-trivial: round trips whose table is not already in '
         'the output arrangement (rows out of key order or variable fields out of name order); transposes with '
         'w>=2 and n>=1; unflatten with padding or >= 2 rows; pivots with an empty cell or a cell aggregating >= 2 '
         'rows; expanders with >= 1 row and >= 1 new field. EXCLUDED (documentation gives no answer): '
         'recast(melt(t)) for n = 0 (variables are discovered from the data) and for non-unique keys; ragged '
         'input for melt/transpose/pivot/expanders; heterogeneous f2 values in pivot (header sorted natively); '
-        'fromdicts without header for n = 0; unpackdict on non-dict cells; field names equal to the '
+        'fromdicts without header for n = 0; second passes over one-shot iterators; fromdicts(dicts(t)) / '
+        'fromcolumns(columns(t)) with non-text field names (the records carry text names, as the statement '
+        'says); explicit variables= and recast round trips where text names are ambiguous (2019 vs "2019") or '
+        'the variable names are not natively sortable; the NAME of a non-text key field in recast output (given '
+        'as text: text or original accepted); unpackdict on non-dict cells; field names equal to the '
         'variable/value field names')
 ASSUMPTIONS = ['key alphabet K4 (None, two ints, one string; seed picks the concrete values): pairwise '
                'non-equivalent under the C04 order, so distinct cells are unique keys',
@@ -128,6 +141,9 @@ def compare(fails, label, res, exp, what):
     if not same_table(obs, exp):
         if obs and exp and not same_table(obs[:1], exp[:1]):
             sig = 'wrong header'
+            if textified(obs[0], exp[0]):
+                sig = 'non-text field names converted to text'
+                label = label.split('(')[0]
         elif len(obs) != len(exp):
             sig = 'wrong number of rows'
         else:
@@ -135,6 +151,13 @@ def compare(fails, label, res, exp, what):
         fails.add('%s | %s' % (label, sig), exp, obs, '%s returned %r, documented result is %r' % (what, obs, exp))
         return False
     return True
+
+
+def textified(obs_hdr, exp_hdr):
+    """obs_hdr is exp_hdr with (only) some non-text names replaced by their str()."""
+    return len(obs_hdr) == len(exp_hdr) and not same_table([obs_hdr], [exp_hdr]) and all(
+        same_cell(a, b) or (isinstance(a, str) and not isinstance(b, str) and a == str(b))
+        for a, b in zip(obs_hdr, exp_hdr))
 
 
 def tag(i, j):
@@ -150,6 +173,57 @@ def value_cell(i, j, variant):
 def keysel(names, key_idx):
     ks = [names[i] for i in key_idx]
     return ks[0] if len(ks) == 1 else ks
+
+
+# field-name axis: text, int, a text equal to str(int), float, None, bool
+NAMEPOOL = ('a', 'b', 2019, '2019', 2020, 1.5, None, True)
+
+
+def names_text(names):
+    return all(isinstance(x, str) for x in names)
+
+
+def str_distinct(names):
+    return len(set(str(x) for x in names)) == len(names)
+
+
+def natively_sortable(vals):
+    try:
+        sorted(vals)
+        return True
+    except TypeError:
+        return False
+
+
+DICT_KINDS = ('list', 'tuple', 'container', 'generator', 'iter', 'map')
+REITERABLE = ('list', 'tuple', 'container', 'generator')
+
+
+def mk_dicts(kind, t):
+    d = etl.dicts(t)
+    if kind == 'list':
+        return list(d)
+    if kind == 'tuple':
+        return tuple(d)
+    if kind == 'container':
+        return d
+    if kind == 'generator':
+        return (x for x in d)
+    if kind == 'iter':
+        return iter(list(d))
+    if kind == 'map':
+        return map(dict, list(d))
+    raise ValueError(kind)
+
+
+COL_KINDS = ('list', 'tuple', 'iter')
+
+
+def mk_cols(outer, inner, t, hdr):
+    cols = etl.columns(t)
+    cs = [cols[str(f)] for f in hdr]
+    cs = [list(c) if inner == 'list' else tuple(c) if inner == 'tuple' else iter(list(c)) for c in cs]
+    return list(cs) if outer == 'list' else tuple(cs) if outer == 'tuple' else iter(cs)
 
 
 REDUCERS = {'count': len, 'first': lambda vs: vs[0], 'joined': lambda vs: '+'.join(vs)}
@@ -228,6 +302,42 @@ def evaluate(case):
             st[4] = ('melt', 'n0')
         return fails, st
 
+    if form == 'melt_names':
+        # field NAMES of any type (int / float / None / bool / text equal to str(int)); fields are
+        # selected by index, or by str(name) where that is unambiguous
+        hdr = t[0]
+        K = list(case['key'])
+        V = [i for i in range(len(hdr)) if i not in K]
+        ki = K[0] if len(K) == 1 else tuple(K)
+        exp_m = R.melt(t, K, V)
+        pt(run(lambda: etl.melt(t, key=ki)), exp_m, 'melt(key=indices)', 'melt(t, key=%r)' % (ki,))
+        byname = str_distinct(hdr)
+        if byname:
+            kn = keysel([str(h) for h in hdr], K)
+            pt(run(lambda: etl.melt(t, key=kn)), exp_m, 'melt(key=names)', 'melt(t, key=%r)' % (kn,))
+        n = len(t) - 1
+        vnames = [hdr[i] for i in V]
+        if n >= 1 and byname and natively_sortable(vnames):
+            # recast names its key fields by text (it is given text); their output name may be the text
+            exp = R.melt_recast_roundtrip(t, K)
+            alt = [tuple(str(x) if j < len(K) else x for j, x in enumerate(exp[0]))] + exp[1:]
+            for lab, fn in (('recast(melt(t, key), key)', lambda: etl.recast(etl.melt(t, key=ki), key=kn)),
+                            ('recast(melt(t, key))', lambda: etl.recast(etl.melt(t, key=ki)))):
+                res = run(fn)
+                st[0] += 1
+                st[1] += 1
+                st[2] += 1
+                if not (res[0] == 'ok' and same_table(res[1], alt)):
+                    compare(fails, lab, res, exp, lab + ' with key=%r on header %r' % (ki, hdr))
+            if not names_text(vnames):
+                st[3] += 1
+        else:
+            st[0] += 1     # excluded: see RULE (ambiguous text names / unsortable variable names / n = 0)
+        if not names_text(hdr):
+            st[3] += 1
+        st[4] = ('melt_names', tuple(type(h).__name__ for h in hdr), tuple(K))
+        return fails, st
+
     if form == 'recast':
         hdr = t[0]
         ki, vi, xi = hdr.index('k'), hdr.index('variable'), hdr.index('value')
@@ -238,7 +348,7 @@ def evaluate(case):
                     kw['missing'] = missing
                 red = None
                 if rname is not None:
-                    red = {'p': REDUCERS[rname]}
+                    red = {case.get('var0', 'p'): REDUCERS[rname]}
                     kw['reducers'] = red
                 exp = R.recast(t, [ki], vi, xi, missing=missing, reducers=red)
                 for keyform in ('k', None):
@@ -335,6 +445,15 @@ def evaluate(case):
                 for c in row[1:]:
                     if c is sentinel or len(c) > 1:
                         nontriv = True
+        # the pivot table (header = f2 VALUES, e.g. ints) fed to melt, and back through recast
+        ehdr, erows = R.pivot(t, i1, i2, i3, missing=sentinel)
+        ptab = [ehdr] + [(row[0],) + tuple(None if c is sentinel else sum(c) for c in row[1:]) for row in erows]
+        V = list(range(1, len(ehdr)))
+        pt(run(lambda: etl.melt(etl.pivot(t, 'r', 'c', 'v', sum), key='r')), R.melt(ptab, [0], V),
+           'melt(pivot(t))', 'melt(pivot(t, "r", "c", "v", sum), key="r")')
+        if len(ptab) > 1:
+            pt(run(lambda: etl.recast(etl.melt(etl.pivot(t, 'r', 'c', 'v', sum), key='r'), key='r')), ptab,
+               'recast(melt(pivot(t)))', 'recast(melt(pivot(t, "r", "c", "v", sum), key="r"), key="r")')
         if nontriv:
             st[3] += 1
         st[4] = ('pivot', len(ehdr), tuple(tuple(0 if c is sentinel else len(c) for c in r[1:]) for r in erows))
@@ -436,6 +555,9 @@ def evaluate(case):
                             if res[0] == 'ok':
                                 fails.add('%s | no error on a non-matching value' % lab, 'an exception',
                                           res[1], '%s: fill=None and a value does not match' % what)
+                            elif res[3] and exp and textified(res[3][0], exp[0]) and same_table(res[3][1:], exp[1:]):
+                                fails.add('capture | non-text field names converted to text', exp, res[3],
+                                          '%s delivered %r before the documented error' % (what, res[3]))
                             elif not same_table(res[3], exp):
                                 # an error earlier (or later) than the documented one: same signature as
                                 # an undocumented exception
@@ -485,30 +607,46 @@ def evaluate(case):
     if form == 'dicts':
         hdr = list(t[0])
         n = len(t) - 1
-        if n >= 1:
-            pt(run(lambda: etl.fromdicts(etl.dicts(t))), t, 'fromdicts(dicts(t))', 'fromdicts(dicts(t))')
-            pt(run(lambda: etl.fromdicts(list(etl.dicts(t)))), t, 'fromdicts(list(dicts(t)))',
-               'fromdicts(list(dicts(t)))')
-            pt(run(lambda: etl.fromdicts(d for d in etl.dicts(t))), t, 'fromdicts(generator over dicts(t))',
-               'fromdicts(d for d in dicts(t))')
-        pt(run(lambda: etl.fromdicts(etl.dicts(t), header=hdr)), t, 'fromdicts(dicts(t), header=)',
-           'fromdicts(dicts(t), header=%r)' % hdr)
-        # a generator-backed view must give the same rows on a second pass
-        v = etl.fromdicts((d for d in etl.dicts(t)), header=hdr)
-        pt(run(lambda: v), t, 'fromdicts(generator, header=) pass 1', 'fromdicts(generator, header=...)')
-        pt(run(lambda: v), t, 'fromdicts(generator, header=) pass 2', 'second pass of fromdicts(generator)')
-        del v
+        # fromdicts over every kind of input x header given / discovered x sample; one-shot inputs
+        # (iter(list), map object) define one pass only, the others must also give a second pass
+        for kind in DICT_KINDS:
+            for header in (None, hdr):
+                if header is None and n == 0:
+                    continue                      # nothing to discover the fields from
+                for sample in ((None, 1, 2, 1000) if header is None else (None,)):
+                    kw = {}
+                    if header is not None:
+                        kw['header'] = header
+                    if sample is not None:
+                        kw['sample'] = sample
+                    lab = 'fromdicts(%s, %s)' % ('generator' if kind == 'generator' else 'one-shot iterator'
+                                                 if kind in ('iter', 'map') else 'container',
+                                                 'header=' if header is not None else
+                                                 'header discovered, sample=1' if sample == 1 else 'header discovered')
+                    what = 'fromdicts(<%s over dicts(t)>%s)' % (kind, ''.join(', %s=%r' % kv for kv in kw.items()))
+                    try:
+                        v = etl.fromdicts(mk_dicts(kind, t), **kw)
+                    except Exception as e:
+                        fails.add('%s | raises %s' % (lab, type(e).__name__), t, type(e).__name__, what)
+                        continue
+                    pt(run(lambda: v), t, lab, what)
+                    if kind in REITERABLE:
+                        pt(run(lambda: v), t, lab, 'second pass of ' + what)
+                    del v
+        for outer in COL_KINDS:
+            for inner in COL_KINDS:
+                lab = 'fromcolumns(columns(t))'
+                pt(run(lambda: etl.fromcolumns(mk_cols(outer, inner, t, hdr), header=hdr)), t, lab,
+                   'fromcolumns(<%s of %ss from columns(t)>, header=%r)' % (outer, inner, hdr))
+                if outer != 'iter':               # the default header needs len(cols)
+                    exp = [tuple('f%d' % i for i in range(len(hdr)))] + t[1:]
+                    pt(run(lambda: etl.fromcolumns(mk_cols(outer, inner, t, hdr))), exp, lab + ' default header',
+                       'fromcolumns(<%s of %ss from columns(t)>)' % (outer, inner))
 
         def viacols():
             cols = etl.columns(t)
             return etl.fromcolumns(list(cols.values()), header=list(cols.keys()))
         pt(run(viacols), t, 'fromcolumns(columns(t))', 'fromcolumns(columns(t).values(), header=keys)')
-
-        def viacols2():
-            cols = etl.columns(t)
-            return etl.fromcolumns([cols[f] for f in hdr])
-        exp = [tuple('f%d' % i for i in range(len(hdr)))] + t[1:]
-        pt(run(viacols2), exp, 'fromcolumns(columns(t)) default header', 'fromcolumns([cols[f] for f in hdr])')
         if n >= 1 and len(hdr) >= 2:
             st[3] += 1
         st[4] = ('dicts', len(hdr), n)
@@ -604,6 +742,13 @@ def items(tier, seed):
             out.append((fam, fi))
     for w in range(1, 4):
         out.append(('dicts', w))
+    for w in (2, 3):
+        for first in range(len(NAMEPOOL)):
+            out.append(('melt-names', w, first))
+    out.append(('names-transpose',))
+    for fi in range(3):
+        for fam in ('unpack', 'unpackdict', 'capture', 'split'):
+            out.append((fam + '-names', fi))
     return out
 
 
@@ -657,16 +802,20 @@ def run_item(item, acc):
     if fam == 'recast':
         _, n, layout, first = item
         hdr = ('k', 'variable', 'value') if layout == 0 else ('variable', 'value', 'k')
-        opts = [(k, v) for k in _K8 for v in ('p', 'q')]
-        for combo in itertools.product(range(len(opts)), repeat=n):
-            if first is not None and (not combo or combo[0] // 2 != first):
+        # variable VALUES become field names: text, int and int/float/bool mixes
+        for varset in (('p', 'q'), (2019, 2020), (1.5, True)):
+            if varset != ('p', 'q') and n > 2:
                 continue
-            rows = [hdr]
-            for i, o in enumerate(combo):
-                k, v = opts[o]
-                d = {'k': k, 'variable': v, 'value': 'v%d' % i}
-                rows.append(tuple(d[h] for h in hdr))
-            _do(acc, {'form': 'recast', 'table': rows}, 'recast')
+            opts = [(k, v) for k in _K8 for v in varset]
+            for combo in itertools.product(range(len(opts)), repeat=n):
+                if first is not None and (not combo or combo[0] // 2 != first):
+                    continue
+                rows = [hdr]
+                for i, o in enumerate(combo):
+                    k, v = opts[o]
+                    d = {'k': k, 'variable': v, 'value': 'v%d' % i}
+                    rows.append(tuple(d[h] for h in hdr))
+                _do(acc, {'form': 'recast', 'table': rows, 'var0': varset[0]}, 'recast')
         acc.sample({'form': 'recast', 'rows': n, 'header': hdr}, 1)
         return
     if fam == 'transpose':
@@ -726,9 +875,59 @@ def run_item(item, acc):
             _do(acc, {'form': 'pivot', 'table': rows}, 'pivot')
         acc.sample({'form': 'pivot', 'rows': n, 'header': hdr}, 1)
         return
+    if fam == 'melt-names':
+        _, w, first = item
+        keycells = [_K4[3], _K4[0], _K4[2]]        # s1, None, i2: not in key order
+        for names in itertools.permutations(NAMEPOOL, w):
+            if NAMEPOOL.index(names[0]) != first:
+                continue
+            for m in range(1, w):
+                for K in itertools.permutations(range(w), m):
+                    for n in range(0, 3):
+                        rows = [tuple(names)]
+                        for i in range(n):
+                            row = [tag(i, j) for j in range(w)]
+                            for q, pos in enumerate(K):
+                                row[pos] = keycells[(i + q) % 3]
+                            rows.append(tuple(row))
+                        _do(acc, {'form': 'melt_names', 'table': rows, 'key': list(K)}, 'melt-fieldnames')
+        return
+    if fam == 'names-transpose':
+        for w in (1, 2, 3):
+            for names in itertools.permutations(NAMEPOOL, w):
+                for n in range(0, 3):
+                    t = [tuple(names)] + [tuple(tag(i, j) for j in range(w)) for i in range(n)]
+                    _do(acc, {'form': 'transpose', 'table': t}, 'transpose-fieldnames')
+                    if n <= 1:
+                        _do(acc, {'form': 'unflatten_table', 'table': t, 'rect': True}, 'flatten-fieldnames')
+        return
     fi = item[1]
     hdr = ['id', 'z']
+    named = fam.endswith('-names')
+    if named:
+        fam = fam[:-6]
     hdr.insert(fi, 'u')
+    if named:
+        # the two OTHER fields carry names of every type; cells tagged; <= 1 row
+        cellopts = {
+            'unpack': [lambda i: ['r0u0', 'r0u1'], lambda i: ('r0u0',)],
+            'unpackdict': [lambda i: {'p': 'r0p'}, lambda i: {'q': 'r0q', 'p': None}],
+            'capture': [lambda i: 'A1', lambda i: '--'],
+            'split': [lambda i: 'p,q', lambda i: 'p'],
+        }[fam]
+        counter = {'unpack': 'unpack', 'unpackdict': 'unpackdict', 'capture': 'capture',
+                   'split': 'split/splitdown'}[fam] + '-fieldnames'
+        for o0, o2 in itertools.permutations(NAMEPOOL, 2):
+            h = [o0, o2]
+            h.insert(fi, 'u')
+            tabs = [[tuple(h)]]
+            for co in cellopts:
+                row = [tag(0, 0), tag(0, 2)]
+                row.insert(fi, co(0))
+                tabs.append([tuple(h), tuple(row)])
+            for t in tabs:
+                _do(acc, {'form': fam, 'table': t, 'fi': fi}, counter)
+        return
 
     alias_rows = 2 if tier == 'thorough' else 1
 
@@ -824,7 +1023,9 @@ def vacuity(cov, tier):
     probs = []
     c = cov['per_case_counters']
     for k in ('melt/recast', 'recast', 'transpose', 'flatten/unflatten', 'flatten-ragged', 'unflatten', 'pivot',
-              'unpack', 'unpackdict', 'capture', 'split/splitdown', 'dicts/columns'):
+              'unpack', 'unpackdict', 'capture', 'split/splitdown', 'dicts/columns', 'melt-fieldnames',
+              'transpose-fieldnames', 'unpack-fieldnames', 'unpackdict-fieldnames', 'capture-fieldnames',
+              'split/splitdown-fieldnames'):
         if not c.get('op:' + k):
             probs.append('no evaluation of ' + k)
         elif not c.get('nontrivial:' + k):
@@ -836,4 +1037,16 @@ def _capture_index(group, case, params):
     return case.get('form') == 'capture' and group.startswith('capture(field=index)') and 'ValueError' in group
 
 
-CLASSIFIERS = {'capture_index_without_original': _capture_index}
+def _textified_names(group, case, params):
+    return (case.get('form') in ('unpack', 'unpackdict', 'capture', 'split')
+            and group.endswith('| non-text field names converted to text'))
+
+
+def _fromdicts_sample1(group, case, params):
+    return case.get('form') == 'dicts' and group.startswith('fromdicts(') and 'sample=1)' in group \
+        and 'generator' not in group
+
+
+CLASSIFIERS = {'capture_index_without_original': _capture_index,
+               'expander_textifies_other_field_names': _textified_names,
+               'fromdicts_sample_1_non_generator': _fromdicts_sample1}
